@@ -634,7 +634,64 @@ def compare_read(g: nx.Graph, m: G.Mol, coord_tol=1e-9):
     return None
 
 
+# characters on which the interpreter's str methods do something an ASCII reading would not expect
+EXOTIC = ["\x85", "\xa0", "\u2003", "\u2028", "\u2029", "\u3000", "\u1680", "\x1c", "\x1d", "\x1e", "\x1f", "\x0b", "\x0c", "\t",
+          "\u0663", "\uff11", "\U0001d7d9", "\u0967", "\xe9", "\u200b", "\u00b2", "\u2460", "\ufeff", "?", "_", "+", "-"]
+
+
+def exotic_mutation(text: str, rng) -> str:
+    """one to three edits that put an unusual character somewhere in a molfile: inserted, in place of a blank,
+    or in place of a digit (a decimal digit of another script)"""
+    for _ in range(rng.randint(1, 3)):
+        if not text:
+            break
+        i = rng.randrange(len(text))
+        c = rng.choice(EXOTIC)
+        mode = rng.random()
+        blanks = [k for k, ch in enumerate(text) if ch == " "]
+        digits = [k for k, ch in enumerate(text) if ch in "0123456789"]
+        if mode < 0.35:
+            text = text[:i] + c + text[i:]
+        elif mode < 0.65 and blanks:
+            k = rng.choice(blanks)
+            text = text[:k] + c + text[k + 1:]
+        elif digits:
+            k = rng.choice(digits)
+            base = rng.choice([0x0660, 0xff10, 0x1d7d8, 0x0966, 0x1fbf0])
+            text = text[:k] + chr(base + int(text[k])) + text[k + 1:]
+    return text
+
+
+def string_layer_ops(run, rng, count):
+    """the interpreter's string layer as the readers use it, against the model's: the character classes of every
+    code point, and random short strings through int / float / splitlines / rstrip / split"""
+    run.corr(*R.op_charclass(), "exact")
+    alphabet = EXOTIC + list("0123456789") * 3 + list(" \n\r.eE") + ["inf", "nan", "Infinity", "\r\n", "__", "e-", "1_0"]
+    for _ in range(count):
+        t = "".join(rng.choice(alphabet) for _ in range(rng.randint(0, 7)))
+        op = rng.choice([R.op_int, R.op_int, R.op_floatok, R.op_floatok, R.op_splitlines, R.op_rstrip, R.op_splitws])
+        run.corr(*op(t), "exact")
+        run.stats["string_layer"] += 1
+    for t in ["1" * 4300, "1" * 4301, "-" + "9" * 4300, " " + "1" * 4300 + " ", "1_" * 2150 + "1", "0" * 5000, "\u0663" * 4301,
+              "1" * 5000 + ".0", "1e" + "9" * 400]:
+        run.corr(*R.op_int(t), "exact")
+        run.corr(*R.op_floatok(t), "exact")
+
+
+def exotic_stream(run, rng, count, renderer, opts=None):
+    """renderings with unusual characters put in: the real reader and the model must agree on the outcome, whatever it is"""
+    for _ in range(count):
+        m = G.gen_mol(rng, max_n=6)
+        text, _ = renderer(m, rng, opts)
+        text = exotic_mutation(text, rng)
+        line, real, _ = R.op_moltext(text)
+        run.corr(line, real, "exact")
+        run.stats["exotic"] += 1
+
+
 def work_C07(run, rng, budget):
+    string_layer_ops(run, rng, 300 * budget)
+    exotic_stream(run, rng, 120 * budget, RD.render_v3000)
     for m in molecules(run, rng, 150 * budget, max_n=14):
         maybe_zero_d(run, m, rng, 0.15)
         for k in range(2):
@@ -688,8 +745,11 @@ def work_C07(run, rng, budget):
     return "abstract molecules rendered as V3000 from the CTfile specification (continuation at arbitrary split points incl. " \
            "inside tokens and after '-', blank runs, shuffled key=value properties, sparse/large atom indices, other spec " \
            "keywords incl. EXACHG/ATTCHORD/RGROUPS, star atoms with ENDPTS, explicit zero defaults, D/T, SGROUP blocks, " \
-           "CRLF), read by the real reader and compared attribute for attribute; plus a malformed stream and the " \
-           "repository files for the correspondence; distinct by rendered text"
+           "CRLF), read by the real reader and compared attribute for attribute; plus a malformed stream, renderings with " \
+           "unusual characters put in (non-ASCII blanks and line separators, FS/GS/RS/US, decimal digits of other scripts), " \
+           "the interpreter's string layer itself (character classes of every code point; int/float/splitlines/rstrip/split " \
+           "on random short strings and at the 4300-digit limit) and the repository files for the correspondence; " \
+           "distinct by rendered text"
 
 
 # =====================================================================================
@@ -716,6 +776,8 @@ def c08_molecules(run, rng, budget):
 
 
 def work_C08(run, rng, budget):
+    string_layer_ops(run, rng, 100 * budget)
+    exotic_stream(run, rng, 120 * budget, RD.render_v2000)
     for m, v2opts in c08_molecules(run, rng, budget):
         for a in m.atoms:  # V2000 fixed columns: coordinates with 4 decimals
             a["x"], a["y"], a["z"] = round(a["x"], 4), round(a["y"], 4), round(a["z"], 4)
@@ -758,7 +820,8 @@ def work_C08(run, rng, budget):
         run.corr(line, real, "exact")
     return "abstract molecules rendered as V2000 (charge codes vs M  CHG/RAD lines with decoy codes, 1-8 entries per property " \
            "line over several lines, D/T symbols together with M  ISO lines, unrelated property lines, atom lists, short " \
-           "lines, CRLF) and as V3000; both read by the real readers and compared with the molecule and with each other"
+           "lines, CRLF) and as V3000; both read by the real readers and compared with the molecule and with each other; " \
+           "for the correspondence also V2000 renderings with unusual characters put in and the interpreter's string layer"
 
 
 # =====================================================================================
